@@ -83,7 +83,7 @@ def run_case(case: Dict) -> Dict:
 def gen_cases(tier: str, seed: int) -> List[Dict]:
     rng = random.Random(15000 + seed)
     quick = tier == "quick"
-    lim = H.limits(tier, quick=(400, 20.0), thorough=(4000, 120.0))
+    lim = H.limits(tier, quick=(600, 30.0), thorough=(4000, 120.0))
     if quick:
         configs = [dict(zip(BOOLS, row)) for row in covering_array(rng)]
     else:
